@@ -2,7 +2,7 @@
 import math
 
 
-def gen_space(r, vz, *, nmax=5, allow_log=True, only=None, float_only=False, bool_only=False):
+def gen_space(r, vz, *, nmax=5, allow_log=True, only=None, float_only=False, bool_only=False, extreme=False):
   """Returns (problem, meta) with 1..nmax parameters; meta[name] = (kind, domain-info)."""
   p = vz.ProblemStatement()
   root = p.search_space.root
@@ -20,7 +20,13 @@ def gen_space(r, vz, *, nmax=5, allow_log=True, only=None, float_only=False, boo
     if kind == 'f':
       sc = r.choice(['LINEAR', 'LINEAR', 'LOG', 'REVERSE_LOG', None]) if allow_log else r.choice(['LINEAR', None])
       shape = r.choice(['unit', 'neg', 'huge', 'tiny', 'single', 'odd', 'narrow', 'narrow2', 'near32', 'near64'])
-      lo, hi = {'unit': (0.0, 1.0), 'neg': (-5.0, -1.5), 'huge': (-1e6, 3e7), 'tiny': (1e-7, 3e-7), 'single': (2.5, 2.5),
+      if extreme and r.random() < 0.5:
+        # ranges whose bounds (or whose width) are not representable in float32 / float64: a designer computes in its own precision
+        # and must either still answer inside the domain or refuse
+        shape = r.choice(['beyond32', 'beyond32pos', 'wide32', 'wide64', 'huge64'])
+        sc = None if sc in ('LOG', 'REVERSE_LOG') and shape != 'beyond32pos' else sc
+      lo, hi = {'beyond32': (-1e39, 1e39), 'beyond32pos': (1.0, 1e39), 'wide32': (-3e38, 3e38), 'wide64': (-1e308, 1e308), 'huge64': (-1e300, 1e300),
+                'unit': (0.0, 1.0), 'neg': (-5.0, -1.5), 'huge': (-1e6, 3e7), 'tiny': (1e-7, 3e-7), 'single': (2.5, 2.5),
                 'odd': (0.1, 0.3), 'narrow': (0.9, 0.999), 'narrow2': (2.0, 3.0),
                 # distinct bounds whose logarithms coincide in float32 / float64
                 'near32': (1000.0, 1000.0001), 'near64': (1e15, 1e15 + 1.0)}[shape]
